@@ -85,7 +85,7 @@ W_ASSUME = ["conforming reporter: throws on severity::fatal during a call, never
             "behaviour of an expectation after its sequence object was destroyed is unspecified: such cases degrade to memory-safety-only"]
 
 # ---------------------------------------------------------------- engine T (threads)
-def t_job(target, mode, quick, thorough, name):
+def t_job(target, mode, quick, thorough, name, prop_tag="C12"):
     """quick/thorough: (shards, programs, size, threads, extra args)"""
     def instances(tier):
         sh, n, size, th, extra = quick if tier == "quick" else thorough
@@ -95,7 +95,7 @@ def t_job(target, mode, quick, thorough, name):
         return c, rc_env(seed, inst["cases"], inst["size"])
     def replay(exe, prop, path):
         return [exe, "--prop", prop, "--replay", path, "--quiet", "--faildir", replay_dir(prop)]
-    return dict(name=name, engine_tag="T prop=C12 mode=" + ("A" if mode == "A" else "B"), target=target, instances=instances, cmd=cmd, replay=replay,
+    return dict(name=name, engine_tag="T prop=%s mode=" % prop_tag + ("A" if mode == "A" else "B"), target=target, instances=instances, cmd=cmd, replay=replay,
                 timeout=dict(quick=900, thorough=5400), replay_timeout=600)
 
 # ---------------------------------------------------------------- single-binary rapidcheck engines (M, R, S, Q, C8)
@@ -162,8 +162,10 @@ PROPS = {
     "C16": dict(jobs=W([("plain", Q, 50), ("overlap", Q, 50)], [("plain", 40000, 90, 8), ("overlap", 40000, 90, 8)], [("overlap", 20000, 70, 2)]),
                 rule=W_RULE + "non-trivial (C16): an accepted call handled by an expectation that is not the newest, or a rejected call with a live expectation, or a reporter swap in mid-history.",
                 assumptions=W_ASSUME + ["OK reports of one operation are compared as a multiset (nested calls)"]),
-    "C17": dict(jobs=W([("trace", Q, 50), ("clauses", Q, 50)], [("trace", 40000, 90, 10), ("clauses", 40000, 90, 6)], [("trace", 20000, 70, 2)]),
-                rule=W_RULE + "non-trivial (C17): a call with >= 2 tracers alive, or a traced throwing call.",
+    "C17": dict(jobs=W([("trace", Q, 50), ("clauses", Q, 50)], [("trace", 40000, 90, 10), ("clauses", 40000, 90, 6)], [("trace", 20000, 70, 2)])
+                     + [t_job("t_asan", "B", (1, 2000, 40, 4, []), (4, 20000, 60, 8, []), "T-B(tracer across threads)", prop_tag="C17"),
+                        t_job("t_tsan", "A", (1, 300, 40, 4, ["--reps", "2"]), (4, 3000, 60, 8, ["--reps", "3"]), "T-A(tracer across threads)", prop_tag="C17")],
+                rule=W_RULE + "non-trivial (C17): a call with >= 2 tracers alive, or a traced throwing call. Engine T adds multi-threaded programs with a tracer installed by the main thread before the workers start: every accepted call of any thread must deliver exactly one record to it.",
                 assumptions=W_ASSUME + ["whether a rejected call is traced is not asserted"]),
     "C12": dict(jobs=[t_job("t_tsan", "A", (4, 350, 40, 4, ["--reps", "3"]), (12, 4000, 60, 8, ["--reps", "4"]), "T-A(TSan)"),
                       t_job("t_asan", "B", (2, 3000, 40, 4, []), (8, 40000, 60, 8, []), "T-B(owned schedule)"),
